@@ -204,6 +204,12 @@ func (g *evGen) intExpr(d int) string {
 		return g.numExpr(d-1) + Pick(g.r, []string{".floor()", ".ceiling()", ".truncate()", ".abs()"})
 	case 7:
 		return g.coll("int", d-1) + Pick(g.r, []string{".first()", ".last()", "[0]", "[1]"})
+	case 8:
+		g.note("toInteger")
+		return g.anyScalar(d-1) + ".toInteger()"
+	case 9:
+		g.note("as")
+		return g.wrap(g.anyScalar(d-1) + " as " + Pick(g.r, []string{"Integer", "System.Integer", "Decimal", "String", "integer"}))
 	}
 	return g.intLit()
 }
@@ -225,6 +231,9 @@ func (g *evGen) numExpr(d int) string {
 		return g.coll("dec", d-1) + Pick(g.r, []string{".first()", ".last()", "[0]"})
 	case 4:
 		return "-" + g.numExpr(d-1)
+	case 5:
+		g.note("toDecimal")
+		return g.anyScalar(d-1) + ".toDecimal()"
 	}
 	return g.decLit()
 }
@@ -251,6 +260,12 @@ func (g *evGen) strExpr(d int) string {
 		return g.strExpr(d-1) + ".replace(" + g.strExpr(d-1) + ", " + g.strExpr(d-1) + ")"
 	case 4:
 		return g.coll("str", d-1) + Pick(g.r, []string{".first()", ".last()", "[0]", "[2]"})
+	case 6:
+		g.note("toString")
+		return g.anyScalar(d-1) + ".toString()"
+	case 7:
+		g.note("as")
+		return g.wrap(g.anyScalar(d-1) + " as " + Pick(g.r, []string{"String", "System.String", "string", "Boolean"}))
 	case 5:
 		g.note("concat-empty")
 		return g.wrap(g.strExpr(d-1) + " & " + Pick(g.r, []string{"{}", "%e", "%s.where(false)"}))
@@ -262,7 +277,7 @@ func (g *evGen) boolExpr(d int) string {
 	if d <= 0 || g.r.Intn(4) == 0 {
 		return Pick(g.r, []string{"true", "false", "{}", "%e", "%b.first()", "%one", "%s.first()"})
 	}
-	switch g.r.Intn(14) {
+	switch g.r.Intn(16) {
 	case 0, 1:
 		g.note("connective")
 		return g.wrap(g.boolExpr(d-1) + " " + Pick(g.r, []string{"and", "or", "xor", "implies"}) + " " + g.boolExpr(d-1))
@@ -296,6 +311,12 @@ func (g *evGen) boolExpr(d int) string {
 	case 10:
 		g.note("str-pred")
 		return g.strExpr(d-1) + Pick(g.r, []string{".startsWith(", ".endsWith(", ".contains("}) + g.strExpr(d-1) + ")"
+	case 12:
+		g.note("is")
+		return g.wrap(g.anyScalar(d-1) + " is " + Pick(g.r, evTypes))
+	case 13:
+		g.note("convertsTo")
+		return g.anyScalar(d-1) + Pick(g.r, []string{".convertsToString()", ".convertsToInteger()", ".convertsToDecimal()", ".convertsToBoolean()"})
 	case 11:
 		g.note("mixed-compare")
 		return g.wrap(g.anyScalar(d-1) + " " + Pick(g.r, []string{"<", ">", "=", "!=", "<=", ">="}) + " " + g.anyScalar(d-1))
@@ -316,6 +337,9 @@ func (g *evGen) anyScalar(d int) string {
 	}
 	return g.coll("", d)
 }
+
+var evTypes = []string{"Integer", "Decimal", "String", "Boolean", "System.Integer", "System.Decimal", "System.String", "System.Boolean", "System.Any", "Any", "Quantity", "System.Quantity", "FHIR.Quantity",
+	"integer", "string", "decimal", "boolean", "FHIR.string", "FHIR.integer", "Element", "Resource", "Patient", "FHIR.Patient", "code", "Date", "DateTime", "Time", "System.Date"}
 
 // programs that must not compile, or that fail / behave specially at evaluation
 var evOdd = []string{
@@ -340,6 +364,14 @@ var evOdd = []string{
 	"%i.where($this)", "%b.where($this)", "%s.where($this)", "%i.where(%i)", "%i.where({})", "%i.all({})", "%i.all(%i)", "%i.all(1)", "%i.exists({})", "%i.exists(%i)", "%e.all(%unknown)", "%e.where(%i.nosuchfield)", "%e.exists(%i)",
 	"1.5.floor()", "(-1.5).floor()", "(-1.5).ceiling()", "(-1.5).truncate()", "1.5.abs()", "'a'.abs()", "%i.abs()", "%e.abs()", "true.floor()", "99999999999.5.floor()", "(-99999999999.5).ceiling()",
 	"1.count()", "1.first()", "'a'.tail()", "1.0.skip(1)", "true.take(1)", "1.where($this = 1)", "1.select($this + 1)", "(1).empty()", "{}.empty()", "{}.count()", "{}.first()", "{}.where(true)", "{}.select($this)", "{}[0]", "{} + 1", "1 + {}", "{} = {}", "{} and {}", "-{}",
+	"1 is Integer", "1 is System.Integer", "1 is integer", "1 is FHIR.integer", "1 is Decimal", "1.0 is Decimal", "1.0 is Integer", "'a' is String", "'a' is string", "true is Boolean", "true is boolean", "1 is Any", "1 is System.Any", "1 is FHIR.Any",
+	"1 is Foo", "1 is System.Foo", "1 is Foo.Integer", "1 is FHIR.System.Integer", "1 is a.b.c", "1 is system.Integer", "1 is fhir.integer", "1 is INTEGER", "1 is Xhtml", "1 is xhtml", "1 is FHIR.String", "1 is System.string", "1 is Element", "1 is Resource", "1 is Patient", "1 is Quantity",
+	"%i is Integer", "%e is Integer", "%one is Integer", "%i.first() is Integer", "{} is Integer", "%i as Integer", "%e as Integer", "%one as Integer", "%one as String", "%one as Any", "1 as Decimal", "1 as Integer", "1 as integer", "'a' as String", "(1 as String).empty()", "1 as Foo",
+	"%m.select($this is Integer)", "%m.where($this is String)", "%m.select($this as Decimal)", "%m.where($this is Decimal).count()", "1 is Integer is Boolean", "1 is Integer = true", "1 + 2 is Integer", "(1 + 2) is Integer", "1 | 2 is Integer", "1 is Integer and true", "-1 is Integer", "1 is Integer.not()",
+	"1.toString()", "1.5.toString()", "true.toString()", "'a'.toString()", "1.50.toString()", "(-0.0).toString()", "100.00.toString()", "'7'.toInteger()", "'x'.toInteger()", "' 7'.toInteger()", "'+7'.toInteger()", "'007'.toInteger()", "'2147483648'.toInteger()", "'1.0'.toInteger()", "true.toInteger()", "1.5.toInteger()",
+	"'1.5'.toDecimal()", "'1e3'.toDecimal()", "'.5'.toDecimal()", "'5.'.toDecimal()", "'-0.50'.toDecimal()", "'abc'.toDecimal()", "true.toDecimal()", "7.toDecimal()", "'true'.toBoolean()", "'T'.toBoolean()", "'yes'.toBoolean()", "'maybe'.toBoolean()", "1.toBoolean()", "2.toBoolean()", "1.0.toBoolean()", "0.0.toBoolean()", "0.5.toBoolean()",
+	"%i.toString()", "%e.toString()", "%e.toInteger()", "%i.toInteger()", "%m.select($this.toString())", "%m.select($this.toInteger())", "%m.select($this.toDecimal())", "%m.select($this.toBoolean())", "%m.select($this.convertsToInteger())", "%m.select($this.convertsToDecimal())", "%m.select($this.convertsToBoolean())", "%m.select($this.convertsToString())",
+	"%i.convertsToInteger()", "%e.convertsToInteger()", "'x'.convertsToInteger()", "'7'.convertsToInteger()", "1.toString(1)", "1.toInteger(1)",
 	"007", "007 + 1", "1.50", "1.50 = 1.5", "0.10 + 0.20", "0.1 + 0.2 = 0.3", "1.0 div 0.3", "7 mod 2.5", "-7 div 2", "-7 mod 2", "7 div -2", "7 mod -2", "(-7.5) div 2", "(-7.5) mod 2", "10 / 4", "10 / 3", "2 / 3", "(-2) / 3", "1 / 3 * 3",
 }
 
